@@ -2,7 +2,8 @@
 # mutdev.sh <id> <A|B> <tier> <prop>...: like mutall.sh but from the WORKING TREE of /verif (scratch copy
 # /tmp/vm2) and only for the given properties - for developing a check against a seeded change.
 id=$1; v=$2; tier=$3; shift 3
-wt=/tmp/mut/$id; out=/tmp/mut/out/$id/$v
+MUT=${MUT:-/tmp/mut}
+wt=$MUT/$id; out=$MUT/out/$id/$v
 exec 8>/tmp/vm2.lock; flock 8
 mkdir -p /tmp/vm2
 rsync -a --delete --exclude .git --exclude .work --exclude lean/.lake --exclude replay /verif/ /tmp/vm2/
